@@ -105,6 +105,12 @@ def gen(tier, rng):
             for m in masks:
                 yield dict(base, op="x", a=pos, m=m)
             yield dict(base, op="c", a=pos, m=0)
+    # really published messages, one field changed under the original signature
+    for signer in range(2 if quick else 6):
+        for t0, now in ((1000, 500), (1000, 1000), (1000, 2000), (0, 0), (U64 - 1, 5)):
+            for b in ("", "hello"):
+                for field in "nvktlb":
+                    yield {"k": "remix", "signer": signer, "t0": t0, "now": now, "body": b, "field": field}
     # publisher scripts
     for i in range(npub):
         t0 = _near(rng, rng.choice([0, 1000, 1 << 40, U64 - 3]))
@@ -125,6 +131,8 @@ def harness_line(c):
                                                              f2[0], f2[1], f2[2], f2[3], bhex(f2[4]), c["sigmut"])
     if c["k"] == "bytes":
         return "bytes %d %d %d %s %s %d %d" % (c["pk"], c["t"], c["l"], bhex(c["body"]), c["op"], c["a"], c["m"])
+    if c["k"] == "remix":
+        return "remix %d %d %d %s %s" % (c["signer"], c["t0"], c["now"], bhex(c["body"]), c["field"])
     return "pub %d %d %s" % (c["signer"], c["t0"], " ".join("%d %s" % (n, bhex(b)) for n, b in c["script"]))
 
 
@@ -164,6 +172,8 @@ def coq_model(c):
     if c["k"] == "bytes":
         return "model_line_bytes %d%%N %d%%N %d%%N %d%%N %s" % (c["pk"], c["t"], c["l"], bnum(c["body"]),
                                                             "false" if carrier_only(c) else "true")
+    if c["k"] == "remix":
+        return "model_line_remix %d%%N %d%%N %d%%N %d%%N %d%%N" % (c["signer"], c["t0"], c["now"], bnum(c["body"]), "nvktlb".index(c["field"]))
     return "model_line_pub %d%%N %d%%N %s" % (c["signer"], c["t0"], _script(c["script"]))
 
 
@@ -184,6 +194,8 @@ def coq_oracle(c, impl):
                                                   "true" if c["sigmut"] else "false", _obs(impl))
     if c["k"] == "bytes":
         return "check_bytes %s %s" % (_fields([1, c["pk"], c["t"], c["l"], c["body"]]), _obs(impl))
+    if c["k"] == "remix":
+        return "check_remix %d%%N %s" % ("nvktlb".index(c["field"]), _obs(impl))
     toks = impl.split()
     uniq = toks[-1] == "uniq=1"
     toks = toks[:-1]
@@ -208,6 +220,8 @@ def nontrivial(c, impl):
         return _tampered(c)
     if c["k"] == "bytes":
         return not carrier_only(c)
+    if c["k"] == "remix":
+        return c["field"] != "n"
     cur, back = c["t0"], False
     for n, _ in c["script"]:
         if n <= cur:
@@ -247,6 +261,6 @@ def distribution(cases, impl):
                 tampered += 1
             else:
                 honest += 1
-        if c["k"] != "pub" and (impl.get(i) or "-").startswith("Y"):
+        if c["k"] not in ("pub",) and (impl.get(i) or "-").startswith("Y"):
             yielded += 1
     return {"kinds": kinds, "forge_honest": honest, "forge_tampered": tampered, "messages_yielded_by_subscription": yielded}
